@@ -76,6 +76,8 @@ def judge(n, info, objno, multi, fmt, accmode, kobj, kmulti, res):
         solved = run.dump is not None and any(e["ev"] == "solve" for e in run.dump.events)
         res.case(common.h([cobj["model"], opts]), N >= 2, labels=["objno>N"],
                  sample=dict(n_objs=N, opts=opts, message=text.strip().split("\n")[0][:120]))
+        if common.alloc_limit(run, res):
+            return None
         if run.sanitizer or run.signal:
             return ("crash with objno beyond the objectives: %s" % common.crash_head(run.err), cobj, "crash")
         if solved or "objno" not in text.lower():
